@@ -677,3 +677,76 @@ Theorem bounded : forall chunks st,
   Forall (fun c => length c <= 100) chunks -> length st <= 19 ->
   Forall (fun b => length b <= 19) (feed_bufs st chunks) /\ Forall (fun n => n <= 119) (feed_peaks st chunks).
 Proof. intros. split; [apply feed_bufs_bounded | apply feed_peaks_bounded; assumption]. Qed.
+
+(* delivery resumes: behind the (possibly lost) first packet after arbitrary bytes, the second packet and every
+   later packet separated by marker-free noise only are cut out, in order, and nothing else is *)
+Theorem resync_resume : forall noise P1 P2 n0 items chunks,
+  pkt_shape P1 = true -> pkt_shape P2 = true -> marker_free (skipn 2 P1) ->
+  marker_free n0 -> Forall item_ok items ->
+  concat chunks = noise ++ P1 ++ P2 ++ stream_of n0 items ->
+  exists pre, feed [] chunks = (pre ++ P2 :: map fst items, trim (final_noise n0 items)).
+Proof.
+  intros noise P1 P2 n0 items chunks H1 H2 HF H0 HI HC.
+  destruct (resync noise P1 P2 (stream_of n0 items) chunks H1 H2 HF HC) as [pre E].
+  exists pre. rewrite E, (no_loss_whole items n0 H0 HI). reflexivity.
+Qed.
+
+(* ------------------------------------------------------------------ whole streams of packets and arbitrary gaps *)
+Lemma subseq_app_l {A} (pre a b : list A) : subseq a b -> subseq a (pre ++ b).
+Proof. intros H. induction pre as [|x pre IH]; [exact H|]. simpl. apply sub_skip, IH. Qed.
+
+Lemma subseq_filter {A} (f : A -> bool) a b : subseq a b -> subseq (filter f a) (filter f b).
+Proof.
+  induction 1 as [l|x a b H IH|x a b H IH]; simpl.
+  - apply sub_nil.
+  - destruct (f x); [apply sub_take|]; exact IH.
+  - destruct (f x); [apply sub_skip|]; exact IH.
+Qed.
+
+Lemma free_b_iff l : free_b l = true <-> marker_free l.
+Proof. unfold free_b, marker_free. destruct (find_marker l); split; congruence. Qed.
+
+Definition consistent (st : sync) (pre : list Z) : Prop :=
+  match st with
+  | Sync n => pre = n /\ marker_free n
+  | Lost => True
+  | Half => exists pre0 P1, pre = pre0 ++ P1 /\ pkt_shape P1 = true /\ marker_free (skipn 2 P1)
+  end.
+
+Lemma must_cut_sound : forall segs st pre, Forall seg_ok segs -> consistent st pre ->
+  subseq (must_cut st segs) (fst (drain_all (pre ++ flatten segs))).
+Proof.
+  induction segs as [|s r IH]; intros st pre HS HC; [apply sub_nil|].
+  inversion HS as [|? ? Hs Hr]; subst.
+  destruct s as [g|p]; cbn [must_cut flatten flat_map seg_bytes]; fold (flatten r).
+  - (* a gap *)
+    rewrite app_assoc.
+    destruct st as [n| |].
+    + destruct HC as [-> Hn]. destruct (free_b (n ++ g)) eqn:F.
+      * apply IH; [exact Hr|]. split; [reflexivity | apply free_b_iff; exact F].
+      * apply IH; [exact Hr | exact I].
+    + apply IH; [exact Hr | exact I].
+    + apply IH; [exact Hr | exact I].
+  - (* a packet *)
+    simpl in Hs.
+    assert (Fresh : subseq (must_cut (Sync []) r) (fst (drain_all (flatten r)))).
+    { apply (IH (Sync []) [] Hr). split; reflexivity. }
+    destruct st as [n| |].
+    + destruct HC as [-> Hn]. rewrite (drain_all_packet n p (flatten r) Hn Hs).
+      destruct (drain_all (flatten r)) as [ps b]. apply sub_take. exact Fresh.
+    + destruct (free_b (skipn 2 p)) eqn:F; rewrite app_assoc; apply IH; try exact Hr; try exact I.
+      exists pre, p. split; [reflexivity|]. split; [exact Hs | apply free_b_iff; exact F].
+    + destruct HC as (pre0 & P1 & -> & H1 & HF). rewrite <- app_assoc.
+      destruct (resync_whole pre0 P1 p (flatten r) H1 Hs HF) as [pre' E]. rewrite E. cbn [fst].
+      apply subseq_app_l, sub_take. exact Fresh.
+Qed.
+
+Theorem stream_sound : forall segs chunks, Forall seg_ok segs -> concat chunks = flatten segs ->
+  subseq (must_cut (Sync []) segs) (fst (feed [] chunks)) /\
+  subseq (filter usb_valid (must_cut (Sync []) segs)) (deliveries (fst (feed [] chunks))).
+Proof.
+  intros segs chunks HS HC.
+  assert (H : subseq (must_cut (Sync []) segs) (fst (feed [] chunks))).
+  { rewrite chunking_from_empty, HC. apply (must_cut_sound segs (Sync []) [] HS). split; reflexivity. }
+  split; [exact H | apply subseq_filter; exact H].
+Qed.
